@@ -12,8 +12,9 @@ import (
 
 // pathEnd is thrown (as a Go panic) to finish the current path.
 type pathEnd struct {
-	kind   string // "done", "infeasible", "violation", "inconclusive"
-	reason string
+	kind    string // "done", "infeasible", "violation", "inconclusive"
+	reason  string
+	blocked bool // a goroutine body reached a blocking operation
 }
 
 // goPanic is a panic of the interpreted program.
@@ -86,6 +87,9 @@ type Interp struct {
 	elemOrigin map[*Value][]Value
 	funcsSeen  map[*ssa.Function]bool
 	tolerant   int
+	parked     []parkedGo
+	inGoroutine int
+	selectRetry bool
 	loopBound  int32
 	patched    map[*ssa.Global]bool
 
